@@ -158,7 +158,7 @@ func runC06(c *Ctx) {
 		w.leaves = append(w.leaves, lf)
 		return zapcore.NewCore(zapcore.NewJSONEncoder(encCfg()), ws, lf.level)
 	}
-	shape := g.Weighted(1, 4, 3, 2, 2)
+	shape := g.Weighted(2, 8, 6, 4, 4, 1)
 	var core zapcore.Core
 	var cfgLeaf *c06leaf
 	switch shape {
@@ -169,6 +169,25 @@ func runC06(c *Ctx) {
 		r.Label(unsafe.Pointer(cfgLeaf.sink), cfgLeaf.sink.Name)
 		cfgLeaf.level = []zapcore.Level{zapcore.DebugLevel, zapcore.InfoLevel, zapcore.ErrorLevel, zapcore.DPanicLevel, zapcore.PanicLevel, zapcore.FatalLevel, zapcore.FatalLevel + 1}[g.Weighted(3, 3, 2, 1, 1, 1, 2)]
 		w.leaves = append(w.leaves, cfgLeaf)
+	case 5:
+		// one core over a combined syncer of 5-7 devices, bare or buffered: more
+		// sinks than a handful behind one Sync
+		lvl := []zapcore.Level{zapcore.DebugLevel, zapcore.ErrorLevel, zapcore.PanicLevel, zapcore.FatalLevel}[g.Draw(4)]
+		var members []zapcore.WriteSyncer
+		for i := 0; i < 5+g.Draw(3); i++ {
+			lf := &c06leaf{sink: zsim.NewSimSink(r, fmt.Sprintf("disk%d", i), 1, uint64(g.Draw(1<<16))+1), level: lvl}
+			r.Label(unsafe.Pointer(lf.sink), lf.sink.Name)
+			if g.Chance(2) {
+				lf.bws = &zapcore.BufferedWriteSyncer{WS: lf.sink, Size: pick(g, 64, 512, 4096), FlushInterval: time.Second}
+				lf.bws.Clock = clk.For(unsafe.Pointer(lf.bws), unsafe.Sizeof(*lf.bws))
+				members = append(members, lf.bws)
+			} else {
+				members = append(members, lf.sink)
+			}
+			w.leaves = append(w.leaves, lf)
+		}
+		core = zapcore.NewCore(zapcore.NewJSONEncoder(encCfg()), zap.CombineWriteSyncers(members...), lvl)
+		c.R.Probe("one core over a combined syncer of 5-7 devices")
 	case 0:
 		core = zapcore.NewNopCore()
 	case 1:
